@@ -1185,5 +1185,535 @@ theorem designVars_P {P : String → Prop} {d : Design} (h : DesignP P d) : ∀ 
   · exact h.equals e he r hr n hn
 
 
+/-! ### the compile path and the specification wire signals identically -/
+
+/-- nucleotides of a compile-path `base_seqs` member of an instance loaded under prefix `pfxc` -/
+def baseNucs (pfxc : String) (b : Comp.BaseRef) : List Nuc :=
+  if b.rev then rc (fwd (pfxc ++ b.name) b.len) else fwd (pfxc ++ b.name) b.len
+
+def basesNucs (pfxc : String) (bs : List Comp.BaseRef) : List Nuc := bs.flatMap (baseNucs pfxc)
+
+/-- what a port of an instance loaded under `pfxc` denotes (the unstarred object) -/
+def portNucs (pfxc : String) (p : Sys.Port × Bool × Nat × Bool) : List Nuc :=
+  match p.1 with
+  | .seq _ bases => basesNucs pfxc bases
+  | .sig n => fwd (pfxc ++ n) p.2.2.1
+
+/-- a compile-path port list and a specification port list describe the same ports -/
+def PortsAgree (pfxc : String) (ip : List (Sys.Port × Bool × Nat × Bool)) (dp : List (List Nuc × Bool)) : Prop :=
+  ip.length = dp.length ∧
+  ∀ x ∈ ip.zip dp, x.2.1 = portNucs pfxc x.1 ∧ x.2.2 = x.1.2.1 ∧ x.2.1.length = x.1.2.2.1 ∧ x.1.2.2.2 = x.2.1.isEmpty
+
+/-- the unstarred nucleotides of the port an entry of signal (of length `len`) refers to -/
+def entryNucs (pfx : String) (len : Nat) (e : SigEntry) : List Nuc :=
+  match e.port with
+  | .seq _ bases => basesNucs (pfx ++ e.comp ++ "-") bases
+  | .sig n => fwd (pfx ++ e.comp ++ "-" ++ n) len
+
+/-- the region the entry constrains equal to the signal: reverse complement exactly when `wc` -/
+def entryRegion (pfx : String) (len : Nat) (e : SigEntry) : List Nuc :=
+  if e.wc then rc (entryNucs pfx len e) else entryNucs pfx len e
+
+/-- the signal tables of the compile path (`signals`, `lengths`) and of the specification (`SigAcc`) agree: same
+    signals in the same order with the same lengths, and the specification's member regions are exactly the
+    regions of the compile path's entries -/
+structure TablesAgree (pfx : String) (sigs : List (String × List SigEntry)) (lens : List (String × Nat))
+    (sa : SigAcc) : Prop where
+  len : sa.len = lens
+  order : sa.order = lens.map (·.1)
+  keys : sigs.map (·.1) = lens.map (·.1)
+  members : sa.members = sigs.map (fun x => (x.1, x.2.map (entryRegion pfx ((lens.lookup x.1).getD 0))))
+  pos : ∀ x ∈ lens, 0 < x.2
+
+theorem lookup_isSome_of_keys {α β} {l1 : List (String × α)} {l2 : List (String × β)}
+    (h : l1.map (·.1) = l2.map (·.1)) (n : String) : (l1.lookup n).isSome = (l2.lookup n).isSome := by
+  induction l1 generalizing l2 with
+  | nil => cases l2 with
+    | nil => rfl
+    | cons _ _ => simp at h
+  | cons a r ih =>
+    cases l2 with
+    | nil => simp at h
+    | cons b t =>
+      obtain ⟨k, v⟩ := a
+      obtain ⟨k', v'⟩ := b
+      simp only [List.map_cons, List.cons.injEq] at h
+      obtain ⟨rfl, ht⟩ := h
+      simp only [List.lookup]
+      cases hk : n == k
+      · exact ih ht
+      · rfl
+
+theorem lookup_append_new {β} (l : List (String × β)) (k n : String) (v : β) (h : (l.lookup n).isSome = true) :
+    (l ++ [(k, v)]).lookup n = l.lookup n := by
+  induction l with
+  | nil => simp at h
+  | cons a r ih =>
+    obtain ⟨k', v'⟩ := a
+    simp only [List.cons_append, List.lookup] at h ⊢
+    cases hk : n == k'
+    · simp only [hk] at h; exact ih h
+    · rfl
+
+theorem lookup_append_self {β} (l : List (String × β)) (k : String) (v : β) (h : l.lookup k = none) :
+    (l ++ [(k, v)]).lookup k = some v := by
+  induction l with
+  | nil => simp [List.lookup]
+  | cons a r ih =>
+    obtain ⟨k', v'⟩ := a
+    simp only [List.cons_append, List.lookup] at h ⊢
+    cases hk : k == k'
+    · simp only [hk] at h; exact ih h
+    · simp [hk] at h
+
+theorem mem_keys_lookup {β} {l : List (String × β)} {x : String × β} (hx : x ∈ l) : (l.lookup x.1).isSome = true := by
+  induction l with
+  | nil => cases hx
+  | cons a r ih =>
+    obtain ⟨k', v'⟩ := a
+    simp only [List.lookup]
+    cases hk : x.1 == k'
+    · rcases List.mem_cons.1 hx with rfl | h
+      · simp at hk
+      · exact ih h
+    · rfl
+
+/-- one binding: if the compile path accepts it, so does the specification, and the tables still agree -/
+theorem bind_step_agree {pfx cname : String} {sigs sigs' : List (String × List SigEntry)}
+    {lens lens' : List (String × Nat)} {sa : SigAcc} {g : SigRef} {ip : Sys.Port × Bool × Nat × Bool}
+    {dp : List Nuc × Bool} (ht : TablesAgree pfx sigs lens sa)
+    (hp : dp.1 = portNucs (pfx ++ cname ++ "-") ip ∧ dp.2 = ip.2.1 ∧ dp.1.length = ip.2.2.1 ∧ ip.2.2.2 = dp.1.isEmpty)
+    (h : bindStep cname (sigs, lens) (g, ip) = .ok (sigs', lens')) :
+    ∃ sa', bpStep sa (g, dp) = .ok sa' ∧ TablesAgree pfx sigs' lens' sa' := by
+  obtain ⟨hp1, hp2, hp3, hp4⟩ := hp
+  unfold bindStep at h
+  simp only at h
+  unfold bpStep
+  simp only [ht.len]
+  -- the region both sides add
+  have hreg : ∀ len, len = ip.2.2.1 →
+      (if (g.star != dp.2) = true then rc dp.1 else dp.1) = entryRegion pfx len ⟨ip.1, cname, g.star != ip.2.1⟩ := by
+    intro len hlen
+    unfold entryRegion entryNucs
+    simp only [hp2]
+    have : dp.1 = (match ip.1 with
+        | .seq _ bases => basesNucs (pfx ++ cname ++ "-") bases
+        | .sig n => fwd (pfx ++ cname ++ "-" ++ n) len) := by
+      rw [hp1, hlen]; unfold portNucs; rfl
+    rw [← this]
+  cases hl : lens.lookup g.name with
+  | none =>
+    rw [hl] at h
+    simp only at h
+    split at h
+    · cases h
+    · rename_i hd
+      simp only [Except.ok.injEq, Prod.mk.injEq] at h
+      obtain ⟨rfl, rfl⟩ := h
+      have hne : dp.1.isEmpty = false := by rw [← hp4]; simpa using hd
+      simp only [hne, Bool.false_eq_true, if_false]
+      refine ⟨_, rfl, ?_⟩
+      have hsl : sigs.lookup g.name = none := by
+        have := lookup_isSome_of_keys ht.keys g.name
+        rw [hl] at this
+        cases hs : sigs.lookup g.name with
+        | none => rfl
+        | some v => rw [hs] at this; cases this
+      have hadd : addSig sigs g.name ⟨ip.1, cname, g.star != ip.2.1⟩ = sigs ++ [(g.name, [⟨ip.1, cname, g.star != ip.2.1⟩])] := by
+        unfold addSig; simp [hsl]
+      constructor
+      · simp only [hp3]
+      · simp only [ht.order, List.map_append, List.map_cons, List.map_nil]
+      · rw [hadd]; simp only [List.map_append, List.map_cons, List.map_nil, ht.keys]
+      · rw [hadd, ht.members]
+        simp only [List.map_append, List.map_cons, List.map_nil]
+        congr 1
+        · apply List.map_congr_left
+          intro x hx
+          have : (lens.lookup x.1).isSome = true := by
+            rw [← lookup_isSome_of_keys ht.keys]; exact mem_keys_lookup hx
+          rw [lookup_append_new lens g.name x.1 ip.2.2.1 this]
+        · rw [lookup_append_self lens g.name ip.2.2.1 hl]
+          simp only [Option.getD_some, List.cons.injEq, and_true, Prod.mk.injEq, true_and]
+          exact hreg _ rfl
+      · intro x hx
+        simp only [List.mem_append, List.mem_singleton] at hx
+        rcases hx with hx | rfl
+        · exact ht.pos x hx
+        · simp only
+          rw [← hp3]
+          cases hd1 : dp.1 with
+          | nil => rw [hd1] at hne; simp at hne
+          | cons _ _ => simp
+  | some l0 =>
+    rw [hl] at h
+    simp only at h
+    split at h
+    · cases h
+    · rename_i hd
+      simp only [Except.ok.injEq, Prod.mk.injEq] at h
+      obtain ⟨rfl, rfl⟩ := h
+      have hl0 : l0 = ip.2.2.1 := by simpa using hd
+      have : (l0 != dp.1.length) = false := by rw [hp3]; simp [hl0]
+      simp only [this, Bool.false_eq_true, if_false]
+      refine ⟨_, rfl, ?_⟩
+      have hsl : (sigs.lookup g.name).isSome = true := by
+        rw [lookup_isSome_of_keys ht.keys, hl]; rfl
+      have hadd : addSig sigs g.name ⟨ip.1, cname, g.star != ip.2.1⟩
+          = sigs.map (fun (k, v) => if k == g.name then (k, v ++ [⟨ip.1, cname, g.star != ip.2.1⟩]) else (k, v)) := by
+        unfold addSig; simp [hsl]
+      constructor
+      · first | rfl | exact ht.len
+      · exact ht.order
+      · rw [hadd, ← ht.keys, List.map_map]
+        apply List.map_congr_left
+        intro x _
+        obtain ⟨k, v⟩ := x
+        simp only [Function.comp]
+        split <;> rfl
+      · rw [hadd, ht.members, List.map_map, List.map_map]
+        apply List.map_congr_left
+        intro x _
+        obtain ⟨k, v⟩ := x
+        simp only [Function.comp]
+        by_cases hk : k == g.name
+        · simp only [hk, if_true, List.map_append, List.map_cons, List.map_nil, Prod.mk.injEq, true_and]
+          congr 1
+          have hkg : k = g.name := eq_of_beq hk
+          rw [hkg, hl]
+          simp only [Option.getD_some, List.cons.injEq, and_true]
+          exact hreg _ hl0
+        · simp only [hk, Bool.false_eq_true, if_false]
+      · exact ht.pos
+
+
+theorem bind_agree {pfx cname : String} : ∀ (globs : List SigRef) (ips : List (Sys.Port × Bool × Nat × Bool))
+    (dps : List (List Nuc × Bool)) (sigs sigs' : List (String × List SigEntry)) (lens lens' : List (String × Nat))
+    (sa : SigAcc), TablesAgree pfx sigs lens sa → PortsAgree (pfx ++ cname ++ "-") ips dps →
+    (List.zip globs ips).foldlM (bindStep cname) (sigs, lens) = .ok (sigs', lens') →
+    ∃ sa', (List.zip globs dps).foldlM bpStep sa = .ok sa' ∧ TablesAgree pfx sigs' lens' sa' := by
+  intro globs
+  induction globs with
+  | nil =>
+    intro ips dps sigs sigs' lens lens' sa ht _ h
+    simp only [List.zip_nil_left, List.foldlM_nil, pure, Except.pure, Except.ok.injEq, Prod.mk.injEq] at h
+    obtain ⟨rfl, rfl⟩ := h
+    exact ⟨sa, rfl, ht⟩
+  | cons g gr ih =>
+    intro ips dps sigs sigs' lens lens' sa ht hp h
+    obtain ⟨hlen, hall⟩ := hp
+    cases ips with
+    | nil =>
+      cases dps with
+      | nil =>
+        simp only [List.zip_nil_right, List.foldlM_nil, pure, Except.pure, Except.ok.injEq, Prod.mk.injEq] at h
+        obtain ⟨rfl, rfl⟩ := h
+        exact ⟨sa, rfl, ht⟩
+      | cons _ _ => simp at hlen
+    | cons ip ir =>
+      cases dps with
+      | nil => simp at hlen
+      | cons dp dr =>
+        simp only [List.zip_cons_cons, List.foldlM_cons] at h ⊢
+        cases h1 : bindStep cname (sigs, lens) (g, ip) with
+        | error e => rw [h1] at h; cases h
+        | ok acc1 =>
+          obtain ⟨sigs1, lens1⟩ := acc1
+          rw [h1] at h
+          obtain ⟨sa1, hs1, ht1⟩ := bind_step_agree ht (hall (ip, dp) (by simp)) h1
+          rw [hs1]
+          exact ih ir dr sigs1 sigs' lens1 lens' sa1 ht1
+            ⟨by simpa using hlen, fun x hx => hall x (by simp only [List.zip_cons_cons, List.mem_cons]; exact Or.inr hx)⟩ h
+
+/-! ### imports -/
+
+def importName (it : String × Option String) : String :=
+  match it.2 with
+  | some n => n
+  | none => match (splitSlash it.1).reverse with | x :: _ => x | [] => it.1
+
+def impStep (acc : Option (List (String × String))) (it : String × Option String) : Option (List (String × String)) :=
+  match acc with
+  | none => none
+  | some t =>
+    let name := match it.2 with
+      | some n => n
+      | none => match (splitSlash it.1).reverse with | x :: _ => x | [] => it.1
+    if (t.lookup name).isSome then none else some (t ++ [(name, it.1)])
+
+theorem addImportsD_eq (items : List (String × Option String)) (t : List (String × String)) :
+    addImportsD items t = items.foldl impStep (some t) := rfl
+
+theorem foldl_impStep_none (l : List (String × Option String)) : l.foldl impStep none = none := by
+  induction l with
+  | nil => rfl
+  | cons _ _ ih => exact ih
+
+theorem addImports_agree : ∀ (items : List (String × Option String)) (t : List (String × String)),
+    (match loadStmts.addImports items t with | .ok t' => some t' | .error _ => none) = addImportsD items t := by
+  intro items
+  induction items with
+  | nil => intro t; simp [loadStmts.addImports, addImportsD]
+  | cons it r ih =>
+    intro t
+    obtain ⟨p, al⟩ := it
+    rw [addImportsD_eq, List.foldl_cons]
+    have hstep : impStep (some t) (p, al) =
+        if (t.lookup (importName (p, al))).isSome then none else some (t ++ [(importName (p, al), p)]) := rfl
+    have hadd : loadStmts.addImports ((p, al) :: r) t =
+        if (t.lookup (importName (p, al))).isSome then .error .dupImport
+        else loadStmts.addImports r (t ++ [(importName (p, al), p)]) := by
+      simp only [loadStmts.addImports]; rfl
+    rw [hstep, hadd]
+    cases (t.lookup (importName (p, al))).isSome
+    · simp only [Bool.false_eq_true, if_false]
+      rw [ih, addImportsD_eq]
+    · simp only [if_true]
+      rw [foldl_impStep_none]
+
+theorem loadStmts_imports (b : Bundle) (fuel : Nat) (includes : List String) (items : List (String × Option String))
+    (r : List SStmt) (st : SysSt) (a : Nat) :
+    loadStmts b fuel includes (.imports items :: r) st a =
+      match loadStmts.addImports items st.template with
+      | .error e => .error e
+      | .ok t => match st with
+        | .mk p n pf _ sg l c i o => loadStmts b fuel includes r (.mk p n pf t sg l c i o) a := by
+  rw [loadStmts]
+  obtain ⟨p, n, pf, t0, sg, l, c, i, o⟩ := st
+  rfl
+
+
+/-! ### the induction over the instance tree -/
+
+/-- the component-level fact the system-level agreement is parametric in: whatever `Comp.load` accepts,
+    `denoteComp` accepts with the same anonymous counter and the same ports -/
+def CompAccept : Prop :=
+  ∀ (c : Comp.Src) (args : Nat) (pfx : String) (anon : Nat) (st : Comp.St) (a : Nat),
+    Comp.load c args pfx anon = .ok (st, a) →
+    ∃ o ports, denoteComp c pfx anon = .ok (o, ports, a) ∧ PortsAgree pfx (compPorts st) ports
+
+theorem instPorts_length (inst : Inst) : (instPorts inst).length = (instArity inst).1 + (instArity inst).2 := by
+  cases inst <;> simp [instPorts, instArity, compPorts, sysPorts]
+
+theorem contains_keys {β} (l : List (String × β)) (n : String) : (l.map (·.1)).contains n = (l.lookup n).isSome := by
+  induction l with
+  | nil => rfl
+  | cons a r ih =>
+    obtain ⟨k, v⟩ := a
+    simp only [List.map_cons, List.contains_cons, List.lookup]
+    cases hk : n == k
+    · simpa using ih
+    · rfl
+
+theorem fwd_length (name : String) (len : Nat) : (fwd name len).length = len := by simp [fwd]
+
+theorem mem_zip_map_map {α β γ} (l : List α) (f : α → β) (g : α → γ) {x : β × γ}
+    (h : x ∈ (l.map f).zip (l.map g)) : ∃ r ∈ l, x = (f r, g r) := by
+  induction l with
+  | nil => simp at h
+  | cons a t ih =>
+    simp only [List.map_cons, List.zip_cons_cons, List.mem_cons] at h
+    rcases h with rfl | h
+    · exact ⟨a, List.mem_cons_self, rfl⟩
+    · obtain ⟨r, hr, hx⟩ := ih h
+      exact ⟨r, List.mem_cons_of_mem _ hr, hx⟩
+
+/-- agreement carried along the statement loop -/
+theorem stmts_agree (b : Bundle) (fuel : Nat) (includes : List String)
+    (IH : ∀ base args argKey pfx path includes anon inst a',
+      loadFile b fuel base args argKey pfx path includes anon = .ok (inst, a') →
+      ∃ d ports, denoteFile b fuel base args argKey pfx path includes anon = .ok (d, ports, a') ∧
+        PortsAgree pfx (instPorts inst) ports) :
+    ∀ (stmts : List SStmt) (st st' : SysSt) (a a' : Nat) (d : Design) (sa : SigAcc),
+      loadStmts b fuel includes stmts st a = .ok (st', a') →
+      TablesAgree st.pfx st.signals st.lengths sa →
+      ∃ d' sa', denoteSysStmts b fuel includes st.path st.pfx stmts st.template d sa a = .ok (d', sa', a') ∧
+        TablesAgree st'.pfx st'.signals st'.lengths sa' ∧ st'.pfx = st.pfx := by
+  intro stmts
+  induction stmts with
+  | nil =>
+    intro st st' a a' d sa h ht
+    rw [loadStmts_nil] at h
+    simp only [Except.ok.injEq, Prod.mk.injEq] at h
+    obtain ⟨rfl, rfl⟩ := h
+    exact ⟨d, sa, denoteSysStmts_nil _ _ _ _ _ _ _ _ _, ht, rfl⟩
+  | cons s r ih =>
+    intro st st' a a' d sa h ht
+    cases s with
+    | imports items =>
+      rw [loadStmts_imports] at h
+      have hag := addImports_agree items st.template
+      cases hi : loadStmts.addImports items st.template with
+      | error e => rw [hi] at h; cases h
+      | ok t =>
+        rw [hi] at h hag
+        simp only at h hag
+        obtain ⟨p, n, pf, t0, sg, l, c, i, o⟩ := st
+        simp only at h
+        obtain ⟨d', sa', hd, ht', hp⟩ := ih (.mk p n pf t sg l c i o) st' a a' d sa h ht
+        refine ⟨d', sa', ?_, ht', hp⟩
+        rw [denoteSysStmts_imports]
+        simp only [SysSt.template] at hag
+        simp only [SysSt.template, ← hag]
+        exact hd
+    | component cname templ args ins outs =>
+      rw [loadStmts_component] at h
+      rw [denoteSysStmts_component]
+      cases hl : st.template.lookup templ with
+      | none => rw [hl] at h; cases h
+      | some tpath =>
+        rw [hl] at h
+        simp only at h ⊢
+        split at h
+        · cases h
+        · cases hf : loadFile b fuel tpath args ("@" ++ st.pfx ++ cname) (st.pfx ++ cname ++ "-") st.path includes a with
+          | error e => rw [hf] at h; cases h
+          | ok x =>
+            obtain ⟨inst, a1⟩ := x
+            rw [hf] at h
+            simp only at h
+            obtain ⟨d1, ports, hdf, hpa⟩ := IH _ _ _ _ _ _ _ _ _ hf
+            rw [hdf]
+            simp only
+            split at h
+            · cases h
+            · rename_i hcount
+              have hcount' : ins.length = (instArity inst).1 ∧ outs.length = (instArity inst).2 := by
+                simpa using hcount
+              have hpl : ports.length = ins.length + outs.length := by
+                rw [← hpa.1, instPorts_length, hcount'.1, hcount'.2]
+              have : (ports.length != ins.length + outs.length) = false := by simp [hpl]
+              rw [this]
+              simp only [Bool.false_eq_true, if_false]
+              cases hb : bindSigs cname st.signals st.lengths (ins ++ outs) (instPorts inst) with
+              | error e => rw [hb] at h; cases h
+              | ok y =>
+                obtain ⟨sg, l⟩ := y
+                rw [hb] at h
+                simp only at h
+                obtain ⟨sa1, hbp, ht1⟩ := bind_agree (ins ++ outs) (instPorts inst) ports st.signals sg st.lengths l sa ht hpa hb
+                rw [bindPorts_eq, hbp]
+                simp only
+                obtain ⟨p, n, pf, t0, sg0, l0, c, i, o⟩ := st
+                exact ih (addComp (.mk p n pf t0 sg0 l0 c i o) sg l cname inst) st' a1 a' _ sa1 h ht1
+
+/-- **the two walks agree**: whatever `load_file` accepts, the specification `denoteFile` accepts, with the same
+    anonymous counter and the same ports (names, declaration stars, lengths) — for every instance tree -/
+theorem wiring_agrees (hc : CompAccept) (b : Bundle) : ∀ (fuel : Nat) base args argKey pfx path includes anon inst a',
+    loadFile b fuel base args argKey pfx path includes anon = .ok (inst, a') →
+    ∃ d ports, denoteFile b fuel base args argKey pfx path includes anon = .ok (d, ports, a') ∧
+      PortsAgree pfx (instPorts inst) ports := by
+  intro fuel
+  induction fuel with
+  | zero =>
+    intro base args argKey pfx path includes anon inst a' h
+    obtain ⟨e, he⟩ := loadFile_zero b base args argKey pfx path includes anon
+    rw [he] at h; cases h
+  | succ fuel ih =>
+    intro base args argKey pfx path includes anon inst a' h
+    rw [loadFile_succ] at h
+    rw [denoteFile_succ]
+    cases hr : resolveImport (fun p => b.exists_.contains (normPath p)) base path includes with
+    | error e => rw [hr] at h; cases h
+    | ok x =>
+      obtain ⟨fname, issys, newPath⟩ := x
+      rw [hr] at h
+      simp only at h ⊢
+      cases hl : b.files.lookup (normPath fname ++ argKey) with
+      | none => rw [hl] at h; cases h
+      | some fs =>
+        rw [hl] at h
+        cases fs with
+        | comp c =>
+          simp only at h ⊢
+          cases issys with
+          | true => cases h
+          | false =>
+            simp only [Bool.false_eq_true, if_false, Bool.false_or] at h ⊢
+            cases hcl : Comp.load c args pfx anon with
+            | error e => rw [hcl] at h; cases h
+            | ok y =>
+              obtain ⟨st, a1⟩ := y
+              rw [hcl] at h
+              simp only [Except.ok.injEq, Prod.mk.injEq] at h
+              obtain ⟨rfl, rfl⟩ := h
+              obtain ⟨o, ports, hd, hp⟩ := hc c args pfx anon st a1 hcl
+              have hpar : (c.params.length != args) = false := by simp [(load_stars hcl).1]
+              rw [hpar, hd]
+              exact ⟨_, _, rfl, hp⟩
+        | sys s =>
+          simp only at h ⊢
+          cases issys with
+          | false => cases h
+          | true =>
+            simp only [Bool.not_true, Bool.false_eq_true, if_false, Bool.false_or] at h ⊢
+            split at h
+            · cases h
+            · rename_i hpar
+              have hpar' : (s.params.length != args) = false := by simpa using hpar
+              rw [hpar']
+              simp only [Bool.false_eq_true, if_false]
+              cases hs : loadStmts b fuel includes s.stmts (.mk newPath s.name pfx [] [] [] [] [] []) anon with
+              | error e => rw [hs] at h; cases h
+              | ok y =>
+                obtain ⟨st, a1⟩ := y
+                rw [hs] at h
+                simp only at h
+                have ht0 : TablesAgree pfx [] [] ({} : SigAcc) :=
+                  ⟨rfl, rfl, rfl, rfl, fun x hx => (nomatch hx)⟩
+                obtain ⟨d1, sa, hd, ht, hpf⟩ := stmts_agree b fuel includes ih s.stmts _ st anon a1 Design.empty {} hs ht0
+                have hpf' : st.pfx = pfx := hpf
+                simp only [SysSt.path, SysSt.pfx, SysSt.template] at hd
+                rw [hd]
+                simp only
+                rw [hpf'] at ht
+                split at h
+                · cases h
+                · rename_i hio
+                  obtain ⟨p, n, pf, t, sg, l, c, i, o⟩ := st
+                  simp only [Except.ok.injEq, Prod.mk.injEq] at h
+                  obtain ⟨rfl, rfl⟩ := h
+                  simp only [SysSt.signals, SysSt.lengths] at ht hio
+                  have hio' : (s.inputs ++ s.outputs).all (fun r => (sg.lookup r.name).isSome) = true := by simpa using hio
+                  have hall : (s.inputs ++ s.outputs).all (fun r => sa.order.contains r.name) = true := by
+                    rw [List.all_eq_true] at hio' ⊢
+                    intro r hr
+                    rw [ht.order, contains_keys, ← lookup_isSome_of_keys ht.keys]
+                    exact hio' r hr
+                  rw [hall]
+                  simp only [Bool.not_true, Bool.false_eq_true, if_false]
+                  refine ⟨_, _, rfl, ?_⟩
+                  constructor
+                  · simp [instPorts, sysPorts, SysSt.inputSeqs, SysSt.outputSeqs]
+                  · intro x hx
+                    simp only [instPorts, sysPorts, SysSt.inputSeqs, SysSt.outputSeqs, SysSt.lengths] at hx
+                    obtain ⟨r, hr, rfl⟩ := mem_zip_map_map _ _ _ hx
+                    have hsome : (l.lookup r.name).isSome = true := by
+                      rw [← lookup_isSome_of_keys ht.keys]
+                      rw [List.all_eq_true] at hio'
+                      exact hio' r hr
+                    obtain ⟨v, hv⟩ := Option.isSome_iff_exists.1 hsome
+                    have hvpos : 0 < v := ht.pos (r.name, v) (lookup_mem hv)
+                    simp only [portNucs, ht.len, hv, Option.getD_some, fwd_length, true_and]
+                    cases v with
+                    | zero => omega
+                    | succ v => simp [fwd, List.range_succ]
+
+
+/-- the signal tables of a loaded system agree with the specification's: same signals, same order, same
+    lengths, and each member region of the specification is the region of the corresponding compile-path entry
+    (`rc` of the port's nucleotides exactly when the entry's `wc` flag is set) -/
+theorem sys_tables_agree (hc : CompAccept) (b : Bundle) (fuel : Nat) (includes : List String) (stmts : List SStmt)
+    (newPath name pfx : String) (anon : Nat) (st : SysSt) (a1 : Nat)
+    (hs : loadStmts b fuel includes stmts (.mk newPath name pfx [] [] [] [] [] []) anon = .ok (st, a1)) :
+    ∃ d1 sa, denoteSysStmts b fuel includes newPath pfx stmts [] Design.empty {} anon = .ok (d1, sa, a1) ∧
+      TablesAgree pfx st.signals st.lengths sa := by
+  have ht0 : TablesAgree pfx [] [] ({} : SigAcc) := ⟨rfl, rfl, rfl, rfl, fun x hx => (nomatch hx)⟩
+  obtain ⟨d1, sa, hd, ht, hpf⟩ := stmts_agree b fuel includes (wiring_agrees hc b fuel) stmts _ st anon a1 Design.empty {} hs ht0
+  have hpf' : st.pfx = pfx := hpf
+  rw [hpf'] at ht
+  exact ⟨d1, sa, hd, ht⟩
+
+
 end
 end Pepper.SysProofs
